@@ -23,6 +23,16 @@ CLAIMS = {
    note=TB+"Hook acceptance/rejection at generation time (lookupManipulatorFunc/buildManipulator) and run-time behaviour of generated code are covered by mode T/G harnesses when registered.",
    technique="SMT-guided symbolic execution of go/ssa (path forking, z3), concrete AST judge per path, native replay of models",
    ref="4/C10"),
+ "C15": dict(
+   text="Bounded symbolic execution of the real runner.Run and Generator.Generate with every pipeline stage summarised by an arbitrary result/error and the file system, stdout and formatters as effect-recording nondeterministic stubs: for every flag valuation and every subset of stage failures the effect trace contains only the log open (iff -log, first) and at most one whole-file write of the formatted bytes to the output path, iff not dry-run and everything succeeded, as the last file-system effect. Counterexamples are replayed end-to-end with the built binary (directory snapshot before/after).",
+   note=TB+"Assumes the stage summaries (stages have no file-system effect of their own; GOCACHE writes by go list and atomicity of os.WriteFile are outside).",
+   technique="SMT-guided symbolic execution of go/ssa with effect-trace stubs; end-to-end replay of models with the built binary",
+   ref="4/C15"),
+ "C18": dict(
+   text="Bounded symbolic execution of the real Config.ParseArgs (all flags, positional argument and GOFILE symbolic; paths as symbolic byte vectors up to 10 bytes compared against an independent definition of 'insert .gen before the extension'), of Generate's print/dry/write branching and of Run's log handling, with flag/os/fmt stubbed. Counterexamples are replayed natively (ParseArgs) or end-to-end with the built binary.",
+   note=TB+"Real flag-package parsing and paths longer than 10 bytes / non-ASCII bytes are outside the bound.",
+   technique="SMT-guided symbolic execution of go/ssa over symbolic byte-vector strings; differential against a reference definition; native / end-to-end replay",
+   ref="4/C18"),
 }
 
 NA_REASON = "check under construction in this session (engine exists, harness not yet registered); see DESIGN.md section 4"
